@@ -73,7 +73,7 @@ theorem refOutcome_half (d : Det) (script : List Bool) :
 
 /-- reset of qubit `q` to `|0⟩`: `|0⟩⟨0|_q ⊗ tr_q ρ`, Kraus form -/
 noncomputable def refReset {n : Nat} (ρ : DMat n) (q : Nat) : DMat n :=
-  conj (oneQ n q (ketbra false false)) ρ + conj (oneQ n q (ketbra false true)) ρ
+  conj (oneQ n q (ketBra2 false false)) ρ + conj (oneQ n q (ketBra2 false true)) ρ
 
 namespace RState
 variable {n : Nat}
@@ -441,7 +441,7 @@ theorem refRun_eq_dm (ne np : Nat) (d : Det) (script : List Bool) (ops : List CO
 theorem refReset_in_ket0 {n : Nat} (ρ : DMat n) (q : Nat) (hq : q < n) :
     proj n (Zq q false) * refReset ρ q = refReset ρ q := by
   unfold refReset conj
-  rw [show oneQ n q (ketbra false false) = proj n (Zq q false) from projZ_eq n q hq false, resetKraus1_eq n q hq]
+  rw [show oneQ n q (ketBra2 false false) = proj n (Zq q false) from projZ_eq n q hq false, resetKraus1_eq n q hq]
   rw [mul_add]
   simp only [← Matrix.mul_assoc, proj_Zq_idem]
 
